@@ -176,7 +176,11 @@ func (c *SCIONClient) measureClockOffsetSCION(ctx context.Context, mtrcs *scionC
 			c.Log.LogAttrs(ctx, slog.LevelInfo, "failed to fetch key exchange data", slog.Any("error", err))
 			return time.Time{}, 0, err
 		}
-		remoteAddr.Host.IP = net.ParseIP(ntskeData.Server)
+		remoteIP := net.ParseIP(ntskeData.Server)
+		if remoteIP == nil {
+			return time.Time{}, 0, errUnexpectedAddrType
+		}
+		remoteAddr.Host.IP = remoteIP
 		remoteAddr.Host.Port = int(ntskeData.Port)
 		if remoteAddr.IA == localAddr.IA {
 			path = spath.Path{
